@@ -140,7 +140,7 @@ func (o cliOpts) args(cmd string, headerPath string) []string {
 			a = append(a, "-header_file", headerPath+".notgo")
 		case "opencomment":
 			a = append(a, "-header_file", headerPath+".opencomment")
-		case "gobuild", "gobuildtab", "gobuildindent", "blockcomment":
+		case "gobuild", "gobuildtab", "gobuildindent", "gobuildplus", "gobuildplusafter", "blockcomment":
 			a = append(a, "-header_file", headerPath+"."+o.Header)
 		}
 	}
@@ -177,6 +177,9 @@ func prepareModule(e *Env, root string, progs []*Program) error {
 	os.WriteFile(filepath.Join(root, "header.txt.blockcomment"), []byte("/*\nCopyright 2026 Example Inc. Files of this project used to start with\n//go:build ignore\n*/\n\n"), 0o644)
 	os.WriteFile(filepath.Join(root, "header.txt.gobuildtab"), []byte("//go:build\tlinux\n\n"), 0o644)
 	os.WriteFile(filepath.Join(root, "header.txt.gobuildindent"), []byte("// Copyright 2026 Example Inc.\n\n  //go:build linux\n\n"), 0o644)
+	// the pre-1.17 spelling of a constraint is a constraint all the same
+	os.WriteFile(filepath.Join(root, "header.txt.gobuildplus"), []byte("// +build ignore\n\n"), 0o644)
+	os.WriteFile(filepath.Join(root, "header.txt.gobuildplusafter"), []byte("/* Copyright 2026 Example Inc. */\n// +build windows\n\n"), 0o644)
 	os.WriteFile(filepath.Join(root, "header.txt.gobuild"), []byte("// Copyright 2026 Example Inc.\n\n//go:build linux\n\n"), 0o644)
 	os.WriteFile(filepath.Join(root, "header.txt.opencomment"), []byte("/* Copyright 2026 Example Inc.\n   All rights reserved.\n"), 0o644)
 	return os.WriteFile(filepath.Join(root, "header.txt"), []byte(headerText), 0o644)
@@ -663,7 +666,7 @@ func CheckC17(e *Env) int {
 	// every unusable header kind and every out-of-directory prefix once with a package that
 	// would otherwise be written
 	k := 0
-	for _, hk := range []string{"missing", "dir", "notgo", "opencomment", "gobuild", "gobuildtab", "gobuildindent"} {
+	for _, hk := range []string{"missing", "dir", "notgo", "opencomment", "gobuild", "gobuildtab", "gobuildindent", "gobuildplus", "gobuildplusafter"} {
 		s := genScenario(e, 7*k+2)
 		k++
 		s.ID = fmt.Sprintf("sh%02d", k)
